@@ -428,7 +428,7 @@ impl E2Run for Link {
     fn budget(&self, tier: &Tier) -> (u64, u64) {
         match tier {
             Tier::Quick => (100_000, 50),
-            Tier::Thorough => (6_000_000, 3000),
+            Tier::Thorough => (6_000_000, 1200),
         }
     }
 
